@@ -123,3 +123,59 @@ Definition C09_lbdy_example : lbdy :=
 Example C09_lbdy_hyp_inhabited :
   lb_wf C09_lbdy_example = true /\ l_steps C09_lbdy_example <> [] /\ length (lb_enc C09_lbdy_example) = 499%nat.
 Proof. vm_compute. repeat split; try reflexivity. discriminate. Qed.
+
+(* ======================================================================================================
+   CAMx one3d family (one3d / humidity / vertical_diffusivity), Model/One3d.v: reader model from
+   camxfiles/one3d/Memmap.py with the TRANSLATED record_items and time_steps expressions (the om_ definitions of Gen/Camx.v)
+   ====================================================================================================== *)
+From PNC Require Import Model.One3d Proofs.One3dProofs.
+
+(* the record-walking spec decoder (given the grid and the layer count, which the format does not store) recovers
+   exactly the content from the spec encoding *)
+Theorem C09_one3d_dec_enc : forall c, o_wf c = true -> o_dec (o_nx c) (o_ny c) (o_nz c) (o_enc c) = Some c.
+Proof. exact o_dec_enc. Qed.
+Print Assumptions C09_one3d_dec_enc.
+
+(* the library's Memmap reader model presents exactly the encoded content of every well-formed file with at
+   least two steps whose second time stamp differs from the first *)
+Theorem C09_one3d_reader_presents_content : forall c, o_wf c = true -> o_readable c = true ->
+  o_mm_read (o_ny c) (o_nx c) (o_enc c) (4 * Z.of_nat (length (o_enc c))) = Ok (o_view_of c).
+Proof. exact o_mm_read_enc. Qed.
+Print Assumptions C09_one3d_reader_presents_content.
+
+(* exact characterisation on valid files (the time stamp changes from every step to the next): the reader
+   succeeds, and then presents the content, if and only if the file has at least two steps *)
+Theorem C09_one3d_reader_whole_file_exact : forall c, o_wf c = true -> o_distinct c = true ->
+  o_mm_read (o_ny c) (o_nx c) (o_enc c) (4 * Z.of_nat (length (o_enc c)))
+  = if (2 <=? length (o_steps c))%nat then Ok (o_view_of c) else Err.
+Proof. exact o_whole_file_exact. Qed.
+Print Assumptions C09_one3d_reader_whole_file_exact.
+
+(* more generally a file whose time stamp never changes (every single-step file) makes the reader raise at
+   every size: `where(time_date != time_date[0])[0][0]` has nothing to return *)
+Theorem C09_one3d_unchanged_stamp_raises : forall c size st, o_wf c = true ->
+  Forall (fun s => os_stamp s = st) (o_steps c) -> 0 <= size <= 4 * Z.of_nat (length (o_enc c)) ->
+  o_mm_read (o_ny c) (o_nx c) (o_enc c) size = Err.
+Proof. exact o_mm_read_same_stamp. Qed.
+Print Assumptions C09_one3d_unchanged_stamp_raises.
+
+(* "every reference-encoded file is read as its content" is therefore refuted for the faithful model: a valid
+   single-step vertical-diffusivity file (2x1 grid, 2 layers) cannot be opened.
+   Replays on the library: known finding C09-met-single-step / C08-met-single-step (region 11). *)
+Definition C09_one3d_single : one3d :=
+  {| o_nx := 2; o_ny := 1; o_nz := 2;
+     o_steps := [OStep 0 4001 [[1065353216; 1073741824]; [1077936128; 1082130432]]] |}.
+Theorem C09_one3d_single_step_refuted :
+  exists c, o_wf c = true /\ o_distinct c = true /\ length (o_steps c) = 1%nat /\
+            o_mm_read (o_ny c) (o_nx c) (o_enc c) (4 * Z.of_nat (length (o_enc c))) = Err.
+Proof. exists C09_one3d_single. vm_compute. repeat split; reflexivity. Qed.
+Print Assumptions C09_one3d_single_step_refuted.
+
+Definition C09_one3d_example : one3d :=
+  {| o_nx := 2; o_ny := 1; o_nz := 2;
+     o_steps := [OStep 1120403456 4001 [[11; 12]; [13; 14]]; OStep 1128792064 4001 [[21; 22]; [23; 24]];
+                 OStep 1133903872 4001 [[31; 32]; [33; 34]]] |}.
+Example C09_one3d_hyp_inhabited :
+  o_wf C09_one3d_example = true /\ o_readable C09_one3d_example = true /\ o_distinct C09_one3d_example = true
+  /\ length (o_enc C09_one3d_example) = 36%nat.
+Proof. vm_compute. repeat split; reflexivity. Qed.
